@@ -9,7 +9,7 @@ import os, sys, json, time
 
 VERIF = os.path.dirname(os.path.dirname(os.path.dirname(os.path.abspath(__file__))))
 EVDIR = os.environ.get('BT_EVIDENCE') or os.path.join(VERIF, 'evidence')
-GATE_TOKENS = 30   # see DESIGN.md 2.8: neutral refactorings measured >= 26 changed tokens in scope, single seeded defects mostly <= 30
+GATE_TOKENS = int(os.environ.get('BT_GATE', '30'))   # see DESIGN.md 2.8: neutral refactorings measured >= 26 changed tokens in scope, single seeded defects mostly <= 30
 
 
 class Check:
